@@ -326,6 +326,8 @@ struct rp_h {
     unsigned out_failed;
     size_t out_maxper; /* > 0: the reply sink takes at most this many octets per call */
     int out_octet;     /* the reply sink is an octet-style driver */
+    size_t nest_at;    /* when the sink holds exactly this many octets ... */
+    void (*nest_fn)(struct rp_h *); /* ... this is called once from inside the sink driver (a transmit-complete hook) */
     size_t out_hiccup_at; /* index of the one sink call that moves nothing and reports out_hiccup_code (SIZE_MAX: none) */
     int out_hiccup_code;
     unsigned out_hiccups;
@@ -513,6 +515,11 @@ rp_sink_chunk(void *drv, const void *p, size_t n)
         return -ENOMEM;
     memcpy(h->out + h->out_n, p, n);
     h->out_n += n;
+    if (h->nest_fn && h->out_n == h->nest_at) {
+        void (*fn)(struct rp_h *) = h->nest_fn;
+        h->nest_fn = NULL;
+        fn(h);
+    }
     return (ssize_t)n;
 }
 
@@ -605,6 +612,8 @@ rp_setup(struct rp_h *h, int serial, int mem16, size_t blocksize)
     h->out_failed = 0;
     h->out_hiccup_at = SIZE_MAX;
     h->out_hiccups = 0;
+    h->nest_fn = NULL;
+    h->nest_at = 0;
     h->out_octet = rp_next_sink_octet;
     rp_next_sink_octet = 0;
     {
